@@ -7,6 +7,9 @@ Re-run by the property's own check on every run (`harness/c05.py`, `c09.py`, `c0
     qap/objective.py     _evaluate         -> lean/Gen/QapEval.lean      (namespace Gen.QapEval)
     ttp/plan_length.py   game_plan_length  -> lean/Gen/PlanLength.lean   (namespace Gen.PlanLength)
     ttp/game_encoding.py map_games         -> lean/Gen/MapGames.lean     (namespace Gen.MapGames)
+    ttp/errors.py        count_errors      -> lean/Gen/CountErrors.lean  (namespace Gen.CountErrors)
+    binpacking2d/objectives/bin_count_and_{last_empty,empty,last_small,small}.py
+                                           -> lean/Gen/BinCountAnd{LastEmpty,Empty,LastSmall,Small}.lean
 
 The output is a Lean `def` in the `Option` monad written in `do` notation (`let mut`, `for … in … do`, `if`, `continue`
 are native Lean), so it reads like the Python source.  `Props/C05Gen.lean`, `C09Gen.lean`, `C08Gen.lean`, `C15Gen.lean` prove that
@@ -27,6 +30,17 @@ Semantics of the embedding
 * a function `-> None` that writes into array parameters (`a[i, j] = e`, `a.fill(e)`) is a procedure: the array is a
   `let mut` variable initialised with the parameter (its prior content is an input) and the generated function returns
   the final array; writes go through the checked `set1?`/`set2?` (same index rule as reads);
+* a function `-> int` may also write into array parameters (scratch arrays): their prior content is an input, the
+  result is the returned integer only (the final content of the scratch arrays is not part of the result);
+* a Python `bool` local (annotated `bool`, or assigned only `True`/`False`) is a Lean `Bool`;
+* `col = a[:, j]` (a column of a 2-D array that the function never writes into) is a local `List Int` obtained with
+  the checked `getCol?`; `abs(e)` is `Int.natAbs`; `e // K`, `e % K` with a non-zero literal `K` are the total
+  `Int.fdiv e K`, `Int.fmod e K`;
+* `len(a)` is the number of elements (rows) of `a`; `max(a, b)` / `min(a, b)` are Lean's; `a[lo:hi].min()` /
+  `.max()` of a 1-D array go through `sliceMin?` / `sliceMax?`: numpy's slice rules (a negative bound counts from the
+  end, bounds are clipped to the array) and `none` for an empty slice (numpy raises `ValueError`);
+* a name that is not a local is looked up as a module-level integer constant (`NAME[: Final[int]] = INT` in the same
+  module or in the module it is imported from with `from M import NAME`) and emitted as `def NAME : Int := INT`;
 * `//` and `%` are Python's floor division and modulus (`Int.fdiv`, `Int.fmod`); a zero divisor yields `none`
   (the compiled code raises `ZeroDivisionError`).
 
@@ -35,14 +49,18 @@ Accepted grammar — everything else raises `Untranslatable` (never guessed):
     def   ::= def NAME(p: np.ndarray | int, …) -> int: [docstring] stmt* return
             | def NAME(p: np.ndarray | int, …) -> None: [docstring] stmt+      (procedure: must write into an array)
     stmt  ::= NAME [: int | Final[int]] = expr | NAME (+=|-=|*=) expr | NAME, NAME = ARR.shape
-            | ARR[ix] = expr | ARR[ix, ix] = expr | ARR.fill(expr)           (procedures only)
+            | NAME [: bool] = True | False | BOOLNAME | NAME = ARR[:, ix]
+            | ARR[ix] = expr | ARR[ix, ix] = expr | ARR[ix(, ix)] (+=|-=|*=) expr | ARR.fill(expr)
             | for NAME in ARR: stmt+ | for NAME, NAME in enumerate(ARR): stmt+
             | for NAME in range(expr [, expr]): stmt+
             | if cond: stmt+ (elif cond: stmt+)* [else: stmt+] | continue | break
     return::= return expr            (last statement of the function only)
     expr  ::= INT | NAME | expr (+|-|*|//|%) expr | -expr | +expr | ARR[ix] | ARR[ix, ix] | int(expr) | (expr)
+            | abs(expr) | expr if cond else expr      (no array read / non-literal division inside the branches)
+            | len(ARR) | max(expr, expr) | min(expr, expr) | ARR[[expr]:[expr]].min() | ARR[[expr]:[expr]].max()
+            | MODULE_CONSTANT
     ix    ::= expr | -INT            (literal negative index: first axis only)
-    cond  ::= expr (<|<=|>|>=|==|!=) expr | cond and cond | cond or cond | not cond
+    cond  ::= expr (<|<=|>|>=|==|!=) expr | BOOLNAME | cond and cond | cond or cond | not cond
               (the right operand of and/or must not read an array or divide: Lean would hoist the partial operation
               out of the short-circuit.  One exception, translated faithfully: `if c1 or c2 …: block` without `else`
               whose block ends in `continue`/`break` becomes `if c1 then block; if c2 then block; …`)
@@ -50,7 +68,9 @@ Accepted grammar — everything else raises `Untranslatable` (never guessed):
 Scoping: a name is declared (`let` / `let mut`) by its first assignment in a block and lives to the end of that block —
 Lean's rule.  A Python program that reads a name outside the block of its first assignment (or before it, or assigns a
 loop variable / a parameter) is rejected, so that Lean's scoping and Python's function-wide scoping agree on every
-accepted program.
+accepted program.  One widening: a name that is not yet declared and is assigned at the top level of EVERY branch of an
+`if … elif … else` is declared (`let mut x := 0`, the value is never read) just before the `if`; inside a branch it may
+be read only after the branch has assigned it.
 """
 from __future__ import annotations
 
@@ -67,10 +87,17 @@ KERNELS = {
     "QapEval": ("moptipyapps/qap/objective.py", "_evaluate"),
     "PlanLength": ("moptipyapps/ttp/plan_length.py", "game_plan_length"),
     "MapGames": ("moptipyapps/ttp/game_encoding.py", "map_games"),
+    "CountErrors": ("moptipyapps/ttp/errors.py", "count_errors"),
+    "BinCountAndLastEmpty": ("moptipyapps/binpacking2d/objectives/bin_count_and_last_empty.py", "bin_count_and_last_empty"),
+    "BinCountAndEmpty": ("moptipyapps/binpacking2d/objectives/bin_count_and_empty.py", "bin_count_and_empty"),
+    "BinCountAndLastSmall": ("moptipyapps/binpacking2d/objectives/bin_count_and_last_small.py", "bin_count_and_last_small"),
+    "BinCountAndSmall": ("moptipyapps/binpacking2d/objectives/bin_count_and_small.py", "bin_count_and_small"),
 }
+BINOBJ_KEYS = ["BinCountAndLastEmpty", "BinCountAndEmpty", "BinCountAndLastSmall", "BinCountAndSmall"]
 
 # names of the prelude and of Lean itself that a Python identifier must not shadow
-RESERVED = {"idx?", "get1?", "get2?", "set1?", "set2?", "fill1", "fill2", "pyFloorDiv", "pyMod", "pyRange", "pyEnumerate", "Int", "Nat", "List", "Option", "some",
+RESERVED = {"idx?", "get1?", "get2?", "getCol?", "set1?", "set2?", "pySlice", "listMin?", "listMax?", "sliceMin?",
+            "sliceMax?", "max", "min", "fill1", "fill2", "pyFloorDiv", "pyMod", "pyRange", "pyEnumerate", "Int", "Nat", "List", "Option", "some",
             "none", "pure", "forIn", "ForInStep"}
 LEAN_KEYWORDS = {
     "instance", "end", "at", "from", "fun", "do", "then", "else", "if", "let", "have", "show", "in", "with", "match",
@@ -119,6 +146,31 @@ def fill1 (a : List Int) (v : Int) : List Int := a.map fun _ => v
 def fill2 (a : List (List Int)) (v : Int) : List (List Int) := a.map fun row => row.map fun _ => v
 '''
 
+PRELUDE_COL = '''\
+/-- checked `a[:, j]` (a column of a list of rows) -/
+def getCol? (a : List (List Int)) (j : Int) : Option (List Int) :=
+  a.mapM fun row => (idx? row.length j).bind (row[·]?)
+'''
+
+PRELUDE_SLICE = '''\
+/-- numpy's `a[lo:hi]` (step 1): a negative bound counts from the end, both bounds are clipped to `[0, len]` -/
+def pySlice (a : List Int) (lo hi : Int) : List Int :=
+  let norm := fun (k : Int) => if k < 0 then max (k + a.length) 0 else min k a.length
+  (a.drop (norm lo).toNat).take ((norm hi).toNat - (norm lo).toNat)
+
+/-- `.min()` / `.max()`; `none` = the array is empty (`ValueError`) -/
+def listMin? : List Int → Option Int
+  | [] => none
+  | x :: xs => some (xs.foldl min x)
+def listMax? : List Int → Option Int
+  | [] => none
+  | x :: xs => some (xs.foldl max x)
+
+/-- `a[lo:hi].min()`, `a[lo:hi].max()` -/
+def sliceMin? (a : List Int) (lo hi : Int) : Option Int := listMin? (pySlice a lo hi)
+def sliceMax? (a : List Int) (lo hi : Int) : Option Int := listMax? (pySlice a lo hi)
+'''
+
 PRELUDE_DIV = '''\
 /-- Python `a // b` (floor division); `none` = `ZeroDivisionError` -/
 def pyFloorDiv (a b : Int) : Option Int := if b = 0 then none else some (a.fdiv b)
@@ -145,8 +197,11 @@ def _is_name(node, name: str) -> bool:
 class Fn:
     """Translator state for one function."""
 
-    def __init__(self, fn: ast.FunctionDef, rel: str) -> None:
+    def __init__(self, fn: ast.FunctionDef, rel: str, consts=None) -> None:
         self.fn, self.rel = fn, rel
+        self.consts = consts or (lambda name: None)   # module-level integer constants (name -> int | None)
+        self.used_consts: dict[str, int] = {}
+        self.uses_slice = False
         self.arrays: dict[str, int | None] = {}     # array parameter -> number of dimensions (inferred from use)
         self.ints: list[str] = []                   # int parameters
         self.shape_used: set[str] = set()
@@ -157,6 +212,8 @@ class Fn:
         self.mutated: list[str] = []                # array parameters written by the function (procedure), in order
         self.procedure = False                      # `-> None`: the result is the final content of the written arrays
         self.uses_div = False
+        self.uses_col = False
+        self.types: dict[str, str] = {}             # local name -> "Int" | "Bool" | "Arr1"
 
     def bad(self, node, why: str):
         raise Untranslatable(f"{self.rel}:{self.fn.name}: line {getattr(node, 'lineno', '?')}: {why}")
@@ -195,7 +252,7 @@ class Fn:
                         self.bad(node, "only 1-D and 2-D indexing is supported")
                     dim(node.value.id, 2, node)
                 elif isinstance(node.slice, ast.Slice):
-                    self.bad(node, "slices are not supported")
+                    dim(node.value.id, 1, node)     # only `a[lo:hi].min()/.max()` is accepted (checked in `expr`)
                 else:
                     dim(node.value.id, 1, node)
             elif isinstance(node, ast.For):
@@ -211,8 +268,8 @@ class Fn:
                   and len(node.targets[0].elts) == 2):
                 dim(node.value.value.id, 2, node)
                 self.shape_used.add(node.value.value.id)
-            if isinstance(node, ast.Assign):
-                for t in node.targets:
+            if isinstance(node, (ast.Assign, ast.AugAssign)):
+                for t in (node.targets if isinstance(node, ast.Assign) else [node.target]):
                     if isinstance(t, ast.Subscript) and isinstance(t.value, ast.Name) and t.value.id in self.arrays \
                             and t.value.id not in self.mutated:
                         self.mutated.append(t.value.id)
@@ -231,8 +288,6 @@ class Fn:
             if d is None:
                 self.bad(self.fn, f"the number of dimensions of array {name} cannot be inferred (it is never indexed)")
         self.mutated = [p.arg for p in self.fn.args.args if p.arg in self.mutated]      # parameter order
-        if self.mutated and not self.procedure:
-            self.bad(self.fn, "a function that writes into an array parameter must be annotated `-> None`")
         if self.procedure and not self.mutated:
             self.bad(self.fn, "a `-> None` function that writes into no array parameter has no result")
         for node in ast.walk(self.fn):
@@ -253,8 +308,20 @@ class Fn:
         kind = self.lookup(node.id)
         if node.id in self.arrays:
             self.bad(node, f"array {node.id} is used as a value")
+        if kind is None and node.id not in self.assign_count and node.id not in self.types:
+            v = self.consts(node.id)
+            if v is not None:
+                self.used_consts[node.id] = v
+                return lean_ident(node.id)
         if kind is None:
-            self.bad(node, f"name {node.id} is read outside the block of its first assignment (or is not a local)")
+            self.bad(node, f"name {node.id} is read outside the block of its first assignment (or is not a local or "
+                           f"a module-level integer constant)")
+        if kind == "pending":
+            self.bad(node, f"name {node.id} is read in a branch before the branch has assigned it")
+        if kind == "localarray":
+            self.bad(node, f"array {node.id} is used as a value")
+        if self.types.get(node.id) == "Bool":
+            self.bad(node, f"bool {node.id} is used as an integer")
         return lean_ident(node.id)
 
     # ------------------------------------------------------------------ expressions (all of type Int)
@@ -280,6 +347,10 @@ class Fn:
             return str(node.value) if node.value >= 0 else f"({node.value})"
         if isinstance(node, ast.Name):
             return self.read(node)
+        if isinstance(node, ast.BinOp) and type(node.op) in DIVOPS and isinstance(node.right, ast.Constant) \
+                and type(node.right.value) is int and node.right.value != 0:
+            fn = "Int.fdiv" if isinstance(node.op, ast.FloorDiv) else "Int.fmod"     # total: the divisor is a non-zero literal
+            return f"({fn} {self.expr(node.left, 100)} {self.expr(node.right, 100)})"
         if isinstance(node, ast.BinOp) and type(node.op) in DIVOPS:
             self.uses_div = True
             return f"(← {DIVOPS[type(node.op)]} {self.expr(node.left, 100)} {self.expr(node.right, 100)})"
@@ -296,11 +367,18 @@ class Fn:
                 return f"(-{self.expr(node.operand, 100)})"
             self.bad(node, f"unary operator {type(node.op).__name__} is not an integer expression")
         if isinstance(node, ast.Subscript):
+            if isinstance(node.value, ast.Name) and self.lookup(node.value.id) == "localarray":
+                if isinstance(node.slice, (ast.Tuple, ast.Slice)):
+                    self.bad(node, f"{node.value.id} is a 1-D array")
+                arr = node.value.id
+                return f"(← get1? {lean_ident(arr)} {self.index(arr, node.slice, 0)})"
             if not (isinstance(node.value, ast.Name) and node.value.id in self.arrays):
                 self.bad(node, "only parameters of type ndarray can be indexed")
             arr = node.value.id
             if self.lookup(arr) not in ("param", "array"):
                 self.bad(node, f"array name {arr} is shadowed")
+            if isinstance(node.slice, ast.Slice):
+                self.bad(node, "a slice is only supported as `a[lo:hi].min()` / `.max()`")
             if isinstance(node.slice, ast.Tuple):
                 i, j = node.slice.elts
                 return f"(← get2? {lean_ident(arr)} {self.index(arr, i, 0)} {self.index(arr, j, 1)})"
@@ -308,14 +386,58 @@ class Fn:
         if isinstance(node, ast.Call):
             if _is_name(node.func, "int") and len(node.args) == 1 and not node.keywords:
                 return self.expr(node.args[0], prec)     # int(e) of an integer
+            if _is_name(node.func, "len") and len(node.args) == 1 and not node.keywords \
+                    and isinstance(node.args[0], ast.Name) and self.is_array(node.args[0].id):
+                return f"({lean_ident(node.args[0].id)}.length : Int)"
+            if isinstance(node.func, ast.Name) and node.func.id in ("max", "min") and len(node.args) == 2 \
+                    and not node.keywords:
+                s_ = f"{node.func.id} {self.expr(node.args[0], 100)} {self.expr(node.args[1], 100)}"
+                return f"({s_})"
+            if (isinstance(node.func, ast.Attribute) and node.func.attr in ("min", "max") and not node.args
+                    and not node.keywords and isinstance(node.func.value, ast.Subscript)
+                    and isinstance(node.func.value.slice, ast.Slice) and isinstance(node.func.value.value, ast.Name)):
+                sub = node.func.value
+                arr = sub.value.id
+                if not self.is_array(arr) or self.array_dim(arr) != 1:
+                    self.bad(node, f"`{arr}[lo:hi].{node.func.attr}()` needs a 1-D array")
+                if sub.slice.step is not None:
+                    self.bad(node, "a slice step is not supported")
+                lo = "0" if sub.slice.lower is None else self.expr(sub.slice.lower, 100)
+                hi = f"({lean_ident(arr)}.length : Int)" if sub.slice.upper is None else self.expr(sub.slice.upper, 100)
+                self.uses_slice = True
+                fn_ = "sliceMin?" if node.func.attr == "min" else "sliceMax?"
+                return f"(← {fn_} {lean_ident(arr)} {lo} {hi})"
+            if _is_name(node.func, "abs") and len(node.args) == 1 and not node.keywords:
+                return f"(({self.expr(node.args[0], 0)}).natAbs : Int)"
             self.bad(node, f"call of {ast.unparse(node.func)} is not supported")
+        if isinstance(node, ast.IfExp):
+            if self.partial(node.body) or self.partial(node.orelse):
+                self.bad(node, "an array read or a non-literal division inside a conditional expression is not supported "
+                               "(Lean would evaluate it before the condition)")
+            return f"(if {self.cond(node.test)} then {self.expr(node.body, 0)} else {self.expr(node.orelse, 0)})"
         self.bad(node, f"expression {type(node).__name__} is not supported")
+
+    def is_array(self, name: str) -> bool:
+        return (name in self.arrays and self.lookup(name) in ("param", "array")) or self.lookup(name) == "localarray"
+
+    def array_dim(self, name: str) -> int:
+        return 1 if self.lookup(name) == "localarray" else self.arrays[name]
+
+    @staticmethod
+    def partial(node) -> bool:
+        """does evaluating the expression involve an operation that can fail (array read, `//`/`%` by a non-literal)?"""
+        for n in ast.walk(node):
+            if isinstance(n, ast.Subscript):
+                return True
+            if isinstance(n, ast.BinOp) and type(n.op) in DIVOPS and not (
+                    isinstance(n.right, ast.Constant) and type(n.right.value) is int and n.right.value != 0):
+                return True
+        return False
 
     @staticmethod
     def reads_array(node) -> bool:
         """does evaluating the expression involve a partial operation (array read, `//`, `%`)?"""
-        return any(isinstance(n, ast.Subscript) or (isinstance(n, ast.BinOp) and type(n.op) in DIVOPS)
-                   for n in ast.walk(node))
+        return Fn.partial(node)
 
     def cond(self, node, prec: int = 0) -> str:
         if isinstance(node, ast.Compare):
@@ -332,29 +454,67 @@ class Fn:
             return f"({s})" if p < prec else s
         if isinstance(node, ast.UnaryOp) and isinstance(node.op, ast.Not):
             return f"¬ {self.cond(node.operand, 51)}"
-        self.bad(node, f"condition {type(node).__name__} is not a comparison")
+        if isinstance(node, ast.Name) and self.types.get(node.id) == "Bool" and self.lookup(node.id) in ("let", "mut"):
+            s = f"{lean_ident(node.id)} = true"
+            return f"({s})" if prec > 50 else s
+        self.bad(node, f"condition {type(node).__name__} is not a comparison or a bool local")
 
     # ------------------------------------------------------------------ statements
     def emit(self, ind: int, text: str) -> None:
         self.lines.append("  " * ind + text)
 
-    def declare_or_assign(self, node, name: str, rhs: str, ind: int) -> None:
+    def declare_or_assign(self, node, name: str, rhs: str, ind: int, ty: str = "Int") -> None:
         kind = self.lookup(name)
-        if name in self.arrays or kind in ("param", "loop"):
-            self.bad(node, f"assignment to {'parameter' if kind == 'param' else 'loop variable'} {name}")
+        if name in self.arrays or kind in ("param", "loop", "localarray", "array"):
+            self.bad(node, f"assignment to {kind or 'array'} {name}")
         if kind is None:
             mut = self.assign_count.get(name, 0) > 1
             self.scopes[-1][name] = "mut" if mut else "let"
-            self.emit(ind, f"let {'mut ' if mut else ''}{lean_ident(name)} : Int := {rhs}")
+            self.types[name] = ty
+            self.emit(ind, f"let {'mut ' if mut else ''}{lean_ident(name)} : {ty} := {rhs}")
         else:
-            if kind != "mut":
+            if kind not in ("mut", "pending"):
                 self.bad(node, f"internal: {name} was classified immutable but is assigned again")
+            if self.types.get(name) != ty:
+                self.bad(node, f"{name} is a {self.types.get(name)} but is assigned a {ty}")
+            if kind == "pending":
+                self.scopes[-1][name] = "mut"       # from here on this branch may read it
             self.emit(ind, f"{lean_ident(name)} := {rhs}")
 
-    def int_annotation(self, node) -> None:
+    @staticmethod
+    def is_bool_const(node) -> bool:
+        return isinstance(node, ast.Constant) and type(node.value) is bool
+
+    def value_type(self, node) -> str:
+        """"Bool" for `True`/`False`/a bool local, "Int" otherwise"""
+        if self.is_bool_const(node) or (isinstance(node, ast.Name) and self.types.get(node.id) == "Bool"
+                                        and self.lookup(node.id) in ("let", "mut")):
+            return "Bool"
+        return "Int"
+
+    def bool_expr(self, node) -> str:
+        if self.is_bool_const(node):
+            return "true" if node.value else "false"
+        if isinstance(node, ast.Name) and self.value_type(node) == "Bool":
+            return lean_ident(node.id)
+        self.bad(node, "only True, False or a bool local can be assigned to a bool")
+
+    def assign_value(self, st, name: str, value, ind: int, ann: str | None = None) -> None:
+        ty = self.value_type(value)
+        if ann == "bool" and ty != "Bool":
+            self.bad(st, "only True, False or a bool local can be assigned to a bool")
+        if ann is not None and ann != "bool" and ty == "Bool":
+            self.bad(st, f"a bool is assigned to {name}: {ann}")
+        if ty == "Bool":
+            self.declare_or_assign(st, name, self.bool_expr(value), ind, "Bool")
+        else:
+            self.declare_or_assign(st, name, self.expr(value), ind)
+
+    def int_annotation(self, node) -> str:
         txt = ast.unparse(node.annotation)
-        if txt not in ("int", "Final[int]", "Final"):
+        if txt not in ("int", "Final[int]", "Final", "bool"):
             self.bad(node, f"unsupported annotation {txt} of a local")
+        return txt
 
     def block(self, stmts, ind: int, *, top: bool = False) -> None:
         self.scopes.append({})
@@ -385,14 +545,15 @@ class Fn:
         if isinstance(st, ast.AnnAssign):
             if not isinstance(st.target, ast.Name) or st.value is None or not st.simple:
                 self.bad(st, "only `name: int = expr` is supported")
-            self.int_annotation(st)
-            self.declare_or_assign(st, st.target.id, self.expr(st.value), ind)
+            self.assign_value(st, st.target.id, st.value, ind, self.int_annotation(st))
         elif isinstance(st, ast.Assign):
             if len(st.targets) != 1:
                 self.bad(st, "chained assignment is not supported")
             t = st.targets[0]
-            if isinstance(t, ast.Name):
-                self.declare_or_assign(st, t.id, self.expr(st.value), ind)
+            if isinstance(t, ast.Name) and self.is_column(st.value):
+                self.column(st, t.id, st.value, ind)
+            elif isinstance(t, ast.Name):
+                self.assign_value(st, t.id, st.value, ind)
             elif isinstance(t, ast.Subscript):
                 self.store(st, t, ind)
             elif (isinstance(t, ast.Tuple) and len(t.elts) == 2 and all(isinstance(e, ast.Name) for e in t.elts)
@@ -405,6 +566,10 @@ class Fn:
                     self.declare_or_assign(st, e.id, f"{lean_ident(arr + '_shape')}.{pos}", ind)
             else:
                 self.bad(st, "only `name = expr` and `a, b = arr.shape` are supported")
+        elif isinstance(st, ast.AugAssign) and isinstance(st.target, ast.Subscript):
+            if type(st.op) not in BINOPS:
+                self.bad(st, "only `arr[ix] (+=|-=|*=) expr` is supported")
+            self.store(st, st.target, ind, aug=BINOPS[type(st.op)])
         elif isinstance(st, ast.AugAssign):
             if not isinstance(st.target, ast.Name) or type(st.op) not in BINOPS:
                 self.bad(st, "only `name (+=|-=|*=) expr` is supported")
@@ -441,7 +606,31 @@ class Fn:
         else:
             self.bad(st, f"statement {type(st).__name__} is not supported")
 
-    def store(self, st, t: ast.Subscript, ind: int) -> None:
+    def is_column(self, v) -> bool:
+        return (isinstance(v, ast.Subscript) and isinstance(v.slice, ast.Tuple) and len(v.slice.elts) == 2
+                and isinstance(v.slice.elts[0], ast.Slice))
+
+    def column(self, st, name: str, v: ast.Subscript, ind: int) -> None:
+        """`col = a[:, j]`: a read-only column of a 2-D array parameter that the function never writes into"""
+        sl = v.slice.elts[0]
+        if sl.lower is not None or sl.upper is not None or sl.step is not None:
+            self.bad(st, "only the full slice `a[:, j]` is supported")
+        if not (isinstance(v.value, ast.Name) and v.value.id in self.arrays and self.arrays[v.value.id] == 2):
+            self.bad(st, "`a[:, j]` needs a 2-D array parameter")
+        arr = v.value.id
+        if arr in self.mutated:
+            self.bad(st, f"a column view of array {arr}, which the function writes into, is not supported")
+        if self.lookup(arr) != "param":
+            self.bad(st, f"array name {arr} is shadowed")
+        if self.lookup(name) is not None or name in self.arrays or self.assign_count.get(name, 0) != 1:
+            self.bad(st, f"the column variable {name} must be a fresh name that is assigned once")
+        j = self.index(arr, v.slice.elts[1], 1)
+        self.uses_col = True
+        self.scopes[-1][name] = "localarray"
+        self.types[name] = "Arr1"
+        self.emit(ind, f"let {lean_ident(name)} : List Int := (← getCol? {lean_ident(arr)} {j})")
+
+    def store(self, st, t: ast.Subscript, ind: int, aug=None) -> None:
         if not (isinstance(t.value, ast.Name) and t.value.id in self.mutated):
             self.bad(st, "only array parameters can be written")
         arr = t.value.id
@@ -450,32 +639,48 @@ class Fn:
         a = lean_ident(arr)
         if isinstance(t.slice, ast.Slice):
             self.bad(st, "slices are not supported")
-        rhs = self.expr(st.value, 100)      # Python evaluates the right-hand side first, then the subscript
         if isinstance(t.slice, ast.Tuple):
-            i, j = t.slice.elts
-            self.emit(ind, f"{a} := (← set2? {a} {self.index(arr, i, 0)} {self.index(arr, j, 1)} {rhs})")
+            if any(isinstance(e, ast.Slice) for e in t.slice.elts):
+                self.bad(st, "slices are not supported")
+            ix = [self.index(arr, e, k) for k, e in enumerate(t.slice.elts)]
+            parts = list(t.slice.elts)
         else:
-            self.emit(ind, f"{a} := (← set1? {a} {self.index(arr, t.slice, 0)} {rhs})")
+            ix = [self.index(arr, t.slice, 0)]
+            parts = [t.slice]
+        d = len(ix)
+        if aug is None:
+            rhs = self.expr(st.value, 100)      # Python evaluates the right-hand side first, then the subscript
+        else:
+            # `a[ix] op= e`: the subscript is evaluated once in Python; it is written twice here, so it must be total
+            if any(self.partial(e) for e in parts):
+                self.bad(st, "an array read or a division inside the subscript of an augmented assignment is not supported")
+            sym, p = aug
+            rhs = f"((← get{d}? {a} {' '.join(ix)}) {sym} {self.expr(st.value, p + 1)})"
+        self.emit(ind, f"{a} := (← set{d}? {a} {' '.join(ix)} {rhs})")
 
     def for_(self, st: ast.For, ind: int) -> None:
         if st.orelse:
             self.bad(st, "`for … else` is not supported")
         it = st.iter
         loopvars: list[str] = []
-        if isinstance(it, ast.Name) and it.id in self.arrays:
+        def is_arr1(n) -> bool:
+            return isinstance(n, ast.Name) and ((n.id in self.arrays and self.lookup(n.id) == "param")
+                                                or self.lookup(n.id) == "localarray")
+        if isinstance(it, ast.Name) and (it.id in self.arrays or self.lookup(it.id) == "localarray"):
             if not isinstance(st.target, ast.Name):
                 self.bad(st, "`for v in arr` needs a single loop variable")
-            if self.lookup(it.id) != "param":
+            if not is_arr1(it):
                 self.bad(st, f"array name {it.id} is shadowed")
             loopvars = [st.target.id]
             head = f"for {lean_ident(st.target.id)} in {lean_ident(it.id)} do"
         elif isinstance(it, ast.Call) and _is_name(it.func, "enumerate"):
-            if len(it.args) != 1 or it.keywords or not (isinstance(it.args[0], ast.Name) and it.args[0].id in self.arrays):
-                self.bad(st, "only `enumerate(arr)` of an array parameter is supported")
+            if len(it.args) != 1 or it.keywords or not (isinstance(it.args[0], ast.Name) and (
+                    it.args[0].id in self.arrays or self.lookup(it.args[0].id) == "localarray")):
+                self.bad(st, "only `enumerate(arr)` of a 1-D array is supported")
             t = st.target
             if not (isinstance(t, ast.Tuple) and len(t.elts) == 2 and all(isinstance(e, ast.Name) for e in t.elts)):
                 self.bad(st, "`for i, v in enumerate(arr)` needs two loop variables")
-            if self.lookup(it.args[0].id) != "param":
+            if not is_arr1(it.args[0]):
                 self.bad(st, f"array name {it.args[0].id} is shadowed")
             loopvars = [t.elts[0].id, t.elts[1].id]
             head = (f"for ({lean_ident(loopvars[0])}, {lean_ident(loopvars[1])}) in "
@@ -499,6 +704,8 @@ class Fn:
             if self.lookup(v) is not None or v in self.arrays:
                 self.bad(st, f"loop variable {v} shadows another name")
         self.emit(ind, head)
+        for v in loopvars:
+            self.types[v] = "Int"
         self.scopes.append({v: "loop" for v in loopvars})
         self.loop_depth += 1
         self.block(st.body, ind + 1)
@@ -515,8 +722,55 @@ class Fn:
                 self.emit(ind, f"if {self.cond(v)} then")
                 self.block(st.body, ind + 1)
             return
+        hoisted: list[str] = []
+        if kw == "if":
+            hoisted = self.hoist(st, ind)
         self.emit(ind, f"{kw} {self.cond(st.test)} then")
         self.block(st.body, ind + 1)
+        self.if_tail(st, ind)
+        for name in hoisted:        # every branch has assigned it
+            self.scopes[-1][name] = "mut"
+
+    def branches(self, st: ast.If):
+        """the blocks of an if/elif/else chain, or None if it has no final else"""
+        out = [st.body]
+        while True:
+            if not st.orelse:
+                return None
+            if len(st.orelse) == 1 and isinstance(st.orelse[0], ast.If):
+                st = st.orelse[0]
+                out.append(st.body)
+            else:
+                out.append(st.orelse)
+                return out
+
+    def hoist(self, st: ast.If, ind: int) -> list[str]:
+        """declare the names that are not yet declared and are assigned at the top level of every branch"""
+        brs = self.branches(st)
+        if brs is None:
+            return []
+        per_branch = []
+        for b in brs:
+            names: dict[str, list] = {}
+            for s_ in b:
+                if isinstance(s_, ast.Assign) and len(s_.targets) == 1 and isinstance(s_.targets[0], ast.Name):
+                    names.setdefault(s_.targets[0].id, []).append(s_.value)
+                elif isinstance(s_, ast.AnnAssign) and isinstance(s_.target, ast.Name) and s_.value is not None:
+                    names.setdefault(s_.target.id, []).append(s_.value)
+            per_branch.append(names)
+        out = []
+        for name in per_branch[0]:
+            if all(name in nb for nb in per_branch) and self.lookup(name) is None and name not in self.arrays:
+                vals = [v for nb in per_branch for v in nb[name]]
+                ty = "Bool" if all(self.is_bool_const(v) for v in vals) else "Int"
+                self.types[name] = ty
+                self.scopes[-1][name] = "pending"
+                dflt = "false" if ty == "Bool" else "0"
+                self.emit(ind, f"let mut {lean_ident(name)} : {ty} := {dflt}  -- assigned in every branch below; this value is never read")
+                out.append(name)
+        return out
+
+    def if_tail(self, st: ast.If, ind: int) -> None:
         if st.orelse:
             nxt = st.orelse[0]
             if len(st.orelse) == 1 and isinstance(nxt, ast.If) and not self.reads_array(nxt.test):
@@ -577,9 +831,54 @@ def source_without_docstring(fn: ast.FunctionDef, src: str) -> str:
     return "\n".join(out).replace("/-", "/ -").replace("-/", "- /")
 
 
-def translate(repo: Path, key: str) -> str:
-    """The text of `lean/Gen/<key>.lean` for the current source under `repo`."""
-    rel, fname = KERNELS[key]
+def _int_consts(tree: ast.Module) -> dict[str, int]:
+    """top-level `NAME = INT` / `NAME: Final[int] = INT` of a module (a name bound more than once is dropped)"""
+    out: dict[str, int] = {}
+    seen: dict[str, int] = {}
+    for st in tree.body:
+        targets = []
+        if isinstance(st, ast.Assign):
+            targets = [t for t in st.targets if isinstance(t, ast.Name)]
+            value = st.value
+        elif isinstance(st, ast.AnnAssign) and isinstance(st.target, ast.Name) and st.value is not None:
+            targets = [st.target]
+            value = st.value
+            if ast.unparse(st.annotation) not in ("int", "Final[int]", "Final"):
+                targets = []
+        for t in targets:
+            seen[t.id] = seen.get(t.id, 0) + 1
+            if isinstance(value, ast.Constant) and type(value.value) is int:
+                out[t.id] = value.value
+    return {k: v for k, v in out.items() if seen.get(k) == 1}
+
+
+def module_consts(repo: Path, tree: ast.Module):
+    """lookup of module-level integer constants: defined in the module itself or imported with `from M import NAME`"""
+    own = _int_consts(tree)
+    imports: dict[str, tuple[str, str]] = {}
+    for st in tree.body:
+        if isinstance(st, ast.ImportFrom) and st.module and st.level == 0:
+            for a in st.names:
+                imports[a.asname or a.name] = (st.module, a.name)
+
+    def lookup(name: str):
+        if name in own:
+            return own[name]
+        if name in imports:
+            mod, orig = imports[name]
+            base = Path(repo) / mod.replace(".", "/")
+            for cand in (base.with_suffix(".py"), base / "__init__.py"):
+                if cand.exists():
+                    try:
+                        return _int_consts(ast.parse(cand.read_text())).get(orig)
+                    except SyntaxError:
+                        return None
+        return None
+    return lookup
+
+
+def translate_function(repo: Path, rel: str, fname: str, ns: str) -> str:
+    """The text of a generated file (namespace `Gen.<ns>`) for function `fname` of `repo/rel`."""
     path = Path(repo) / rel
     try:
         src = path.read_text()
@@ -590,9 +889,12 @@ def translate(repo: Path, key: str) -> str:
     if len(fns) != 1:
         raise Untranslatable(f"{rel}: expected exactly one top-level function {fname}, found {len(fns)}")
     fn = fns[0]
-    tr = Fn(fn, rel)
+    tr = Fn(fn, rel, module_consts(repo, tree))
     code = tr.translate()
-    prelude = PRELUDE + ("\n" + PRELUDE_STORE if tr.mutated else "") + ("\n" + PRELUDE_DIV if tr.uses_div else "")
+    prelude = (PRELUDE + ("\n" + PRELUDE_COL if tr.uses_col else "") + ("\n" + PRELUDE_STORE if tr.mutated else "")
+               + ("\n" + PRELUDE_SLICE if tr.uses_slice else "") + ("\n" + PRELUDE_DIV if tr.uses_div else ""))
+    consts = "".join(f"/-- module-level constant of the Python source -/\ndef {lean_ident(k)} : Int := {v}\n\n"
+                     for k, v in tr.used_consts.items())
     return "\n".join([
         "/-!",
         "GENERATED by harness/translate/loop2lean.py from the working tree — do not edit.",
@@ -603,14 +905,20 @@ def translate(repo: Path, key: str) -> str:
         source_without_docstring(fn, src),
         "```",
         "-/",
-        f"namespace Gen.{key}",
+        f"namespace Gen.{ns}",
         "",
         prelude,
-        code,
+        consts + code,
         "",
-        f"end Gen.{key}",
+        f"end Gen.{ns}",
         "",
     ])
+
+
+def translate(repo: Path, key: str) -> str:
+    """The text of `lean/Gen/<key>.lean` for the current source under `repo`."""
+    rel, fname = KERNELS[key]
+    return translate_function(repo, rel, fname, key)
 
 
 def emit(repo: Path, lean_dir: Path, key: str) -> Path:
@@ -636,6 +944,23 @@ def emit_plan_length(repo: Path, lean_dir: Path) -> Path:
 
 def emit_map_games(repo: Path, lean_dir: Path) -> Path:
     return emit(repo, lean_dir, "MapGames")
+
+
+def emit_count_errors(repo: Path, lean_dir: Path) -> Path:
+    return emit(repo, lean_dir, "CountErrors")
+
+
+def emit_binobj(repo: Path, lean_dir: Path) -> dict[str, Exception | None]:
+    """The four for-loop-only bin-packing objective kernels, each into its own file; per kernel `None` or the reason
+    why it could not be translated (the other kernels are still regenerated)."""
+    out: dict[str, Exception | None] = {}
+    for key in BINOBJ_KEYS:
+        try:
+            emit(repo, lean_dir, key)
+            out[key] = None
+        except Exception as e:  # noqa: BLE001
+            out[key] = e
+    return out
 
 
 if __name__ == "__main__":
